@@ -96,7 +96,10 @@ def check_application(rule_name: str, root, node, envs=None) -> List[Dict[str, A
     if snapshot(root) != snap0:
         fail("C07", "frame/untouched-context", "the tree the copy was cloned from was modified")
     new_root = res.get_root()
-    probs = wf_problems(new_root)
+    payload: List[str] = []
+    probs = wf_problems(new_root, payload=payload)
+    if payload:
+        fail("C09", "closure/constant-payload", "; ".join(payload[:3]))
     if probs:
         fail("C07", "structure/well-formed", "; ".join(probs[:3]))
         return fails
